@@ -158,6 +158,49 @@ def find_anchor(fn, spec):
     return []
 
 
+VAR_TOK = re.compile(r"(?<![\w:.>])([a-z_][a-z0-9_]*)(?![\w(:<])")
+NOT_VARS = {"is", "in", "const", "b", "mut"}
+
+
+def var_atoms(facts):
+    out = set()
+    for f in facts:
+        for part in (f[0], f[2]):
+            for m in VAR_TOK.finditer(str(part)):
+                if m.group(1) not in NOT_VARS:
+                    out.add(m.group(1))
+    return out
+
+
+def rename_fact(f, ren):
+    def sub(s):
+        return VAR_TOK.sub(lambda m: ren.get(m.group(1), m.group(1)), str(s))
+    return (sub(f[0]), f[1], sub(f[2]))
+
+
+def holds(need, dom):
+    return tuple(need) in dom or k6.canon(*need) in dom
+
+
+def missing_facts(needs, dom, fn):
+    """needs that do not dominate; local variables that no longer exist in the function may be consistently renamed to other
+    local variables of the function (a pure rename of a local must not raise an alarm)"""
+    import itertools
+    miss = [n for n in needs if not holds(n, dom)]
+    if not miss:
+        return []
+    names = set(fn.names.values()) | set(fn.upvar_names.values())
+    vanished = sorted(v for v in var_atoms(needs) if v not in names)
+    if not vanished or len(vanished) > 3:
+        return miss
+    cands = sorted(v for v in var_atoms(dom) if v in names and v not in var_atoms(needs))
+    for perm in itertools.permutations(cands, len(vanished)):
+        ren = dict(zip(vanished, perm))
+        if all(holds(rename_fact(n, ren), dom) for n in needs):
+            return []
+    return miss
+
+
 def fact_str(f):
     return "%s %s %s" % (f[0], f[1], f[2])
 
@@ -204,12 +247,11 @@ def r19_1(ctx, fx, seen):
                     continue
             else:
                 afs = fs
+                afn = fn
             missing = []
             for nd in nodes:
                 dom = afs.dominating(nd)
-                for need in ent.get("need", []):
-                    if tuple(need) not in dom and k6.canon(*need) not in dom:
-                        missing.append(fact_str(need))
+                missing += [fact_str(x) for x in missing_facts(ent.get("need", []), dom, afn)]
             ctx.ob("R19.1", key, not missing, site=fn.site(p["node"]), cfg=fx.cfg,
                    detail="[%s] %s :: %s ; required guard facts %s%s" % (ent.get("class", "guard"), desc[:60], ent.get("why", ""), [fact_str(x) for x in ent.get("need", [])],
                                                                           (" ; NO LONGER DOMINATING: %s" % sorted(set(missing))) if missing else ""))
@@ -277,9 +319,7 @@ def r19_2(ctx, fx, seen):
                             for lab in fn.variant_edges(sw, "None"):
                                 cut.add((sw[0], lab))
                 dom = dominating_with_cut(fn, fs, c.node, cut)
-                for need in ent["need"]:
-                    if k6.canon(*need) not in dom and tuple(need) not in dom:
-                        missing.append(fact_str(need))
+                missing += [fact_str(x) for x in missing_facts(ent["need"], dom, fn)]
                 ok = ok and not missing
             ctx.ob("R19.2", key, ok, site=fn.site(c.node), cfg=fx.cfg,
                    detail="size `%s`: %s%s" % (sdesc[:50], why, (" ; MISSING: %s" % missing) if missing else ""))
@@ -312,7 +352,7 @@ def r19_2b(ctx, fx, seen):
                        detail="a container grows inside a loop of the decoder closure without a listed bound; dominating facts: %s" % sorted(fact_str(x) for x in fs.dominating(c.node))[:6])
                 continue
             dom = fs.dominating(c.node)
-            missing = [fact_str(x) for x in ent.get("need", []) if k6.canon(*x) not in dom and tuple(x) not in dom]
+            missing = [fact_str(x) for x in missing_facts(ent.get("need", []), dom, fn)]
             ctx.ob("R19.2", key, not missing, site=fn.site(c.node), cfg=fx.cfg, detail="%s%s" % (ent.get("why", ""), (" ; MISSING: %s" % missing) if missing else ""))
     ctx.anchor("R19.2", "in-loop growth sites inventoried", n, 6, cfg=fx.cfg)
 
@@ -341,7 +381,16 @@ def r19_3(ctx, fx, seen):
         ctx.bodies.add((fx.cfg, key))
         heads = [c for c in fn.calls(spec["head"])]
         steps = [c.node for c in fn.calls(spec["step"])] if spec.get("step") else []
-        steps += [n for n, s in fn.assigns() if spec.get("assign") and (fn.names.get(s["lhs"][0]) == spec["assign"]) and len(s["lhs"]) == 1 and n != spec.get("init")]
+        if spec.get("reassign_arg0") and heads:
+            # the loop variable is the (re-assigned) local the head call reads: every re-assignment inside the loop consumes input
+            from common import slice_locals
+            cand = set(slice_locals(fn, heads[0].args[0]))
+            m0 = re.match(r"^&?_(\d+)", fn.origin(heads[0].args[0]))
+            if m0:
+                cand.add(int(m0.group(1)))
+            lv = [l for l in cand if fn.single_def(l) is None and len(fn.defs().get(l, [])) >= 2]
+            body = fn.reach([heads[0].node], after=True)
+            steps += [n for l in lv for n, kind, pl in fn.defs().get(l, []) if kind == "assign" and n in body and n in fn.reach_back([heads[0].node])]
         ctx.anchor("R19.3", "%s: loop head / consuming step" % fn_short(key), min(len(heads), len(steps)), 1, cfg=fx.cfg)
         for h in heads[:1]:
             # a cycle through the head that avoids every consuming step = an iteration without progress
